@@ -70,7 +70,16 @@ class C03(Property):
 
     def searches(self, ctx):
         n = 3200 if ctx.tier == 'quick' else 40000
-        return [('frames', file_specs(profile(ctx.tier)), n // ctx.nshards)]
+        # second family: channels of one logical file spread over differently named CHANNEL sets, names from a small pool
+        # (same-named channels in different sets, each with its own data set and rows)
+        sets = profile(ctx.tier)
+        sets.named_sets = True
+        sets.set_names_per_type_differ = True
+        sets.name_pool = ['DEPTH', 'GR', 'IMG']
+        sets.max_frames = 3
+        sets.sources = ('inline', 'dict')
+        return [('frames', file_specs(profile(ctx.tier)), (n * 3 // 4) // ctx.nshards),
+                ('frames-in-named-sets', file_specs(sets), (n // 4) // ctx.nshards)]
 
     def run(self, spec, ctx):
         r, dec, ferr = specrun.write_and_decode(spec, ctx)
